@@ -123,9 +123,10 @@ type group struct {
 	alphabet []int
 	length   int
 	q        []*big.Int
-	st       []*big.Int // q stored in form0
-	xs       []*big.Int // evaluation points (beyond the structured ones)
-	maxIdx   int        // number of GetCoeff indices per check
+	st       []*big.Int      // q stored in form0
+	xs       []*big.Int      // evaluation points (beyond the structured ones)
+	maxIdx   int             // number of GetCoeff indices per check
+	bad      map[string]bool // prefixes after which the object no longer denotes the model (reported once, not re-entered)
 	tag      string
 }
 
@@ -309,6 +310,9 @@ func (e *env) runHistory(g *group, seq []int, checkFrom int, hidx int) {
 		}
 		cur = next
 		if k < checkFrom {
+			if len(g.bad) > 0 && g.bad[fmt.Sprint(seq[:k+1])] {
+				return
+			}
 			continue
 		}
 		// form label
@@ -323,6 +327,10 @@ func (e *env) runHistory(g *group, seq []int, checkFrom int, hidx int) {
 			return fmt.Sprintf("%s: Size()=%d want %d", hist(), cur.p.Size(), cur.size)
 		})
 		if !e.checkObj(g, cur, opn, before, hist, false) {
+			if g.bad == nil {
+				g.bad = map[string]bool{}
+			}
+			g.bad[fmt.Sprint(seq[:k+1])] = true
 			return
 		}
 		if k == len(seq)-1 {
